@@ -222,7 +222,29 @@ def check_one(job):
     try:
         stmts = b09front.parse_program(o[1])
     except SyntaxErr as e:
-        out["status"] = "syntax"  # C07's subject
+        out["status"] = "syntax"  # C07's subject - except a RUN that passes nothing where it must pass an argument
+        code = re.sub(r'"[^"]*"', '""', re.sub(r"\(\*.*", "", o[1]))
+        for m in re.finditer(r"(?i)\brun\s+(\w+)\(", code):
+            depth, k, args, cur = 1, m.end(), [], ""
+            while k < len(code) and depth:
+                ch = code[k]
+                if ch == "(":
+                    depth += 1
+                elif ch == ")":
+                    depth -= 1
+                    if not depth:
+                        break
+                if ch == "," and depth == 1:
+                    args.append(cur)
+                    cur = ""
+                else:
+                    cur += ch
+                k += 1
+            args.append(cur)
+            empty = [i + 1 for i, a in enumerate(args) if not a.strip()]
+            if empty and len(args) > 1:
+                out["sigs"].append(("missing-argument", f"{m.group(1)}: nothing is passed in position {empty[0]} of {len(args)}"))
+        out["emitted"] = o[1]
         out["stats"] = st.export()
         return out
     types = {}
